@@ -1231,6 +1231,11 @@ func (ctx *RenderContext) getItem(container, index interface{}) (interface{}, er
 			// Try to find the key
 			var mapKey reflect.Value
 
+			// A null / undefined key is in no map
+			if index == nil {
+				return nil, nil
+			}
+
 			// Convert the index to the map's key type if possible
 			keyType := v.Type().Key()
 			indexValue := reflect.ValueOf(index)
